@@ -136,7 +136,7 @@ def errName : HandlesDisk.Err → String
   | .size => "VerifyFileSizeError"
   | .readNoent => "ReadError"
   | .readOther => "ReadError"
-  | .typeError => "TypeError"
+  | .osError => "OSError"
   | .internal => "internal"
 
 def kindName : Missing.ErrKind → String | .read => "ReadError" | .size => "VerifyFileSizeError"
@@ -184,7 +184,9 @@ def parseStep (flat : List Nat) (cid0 dirsize pos : Nat) (j : Json) :
     | "mkdir" => return .disk (.mkdir f dirsize)
     | _ => throw s!"unknown disk change {kind}"
   else
-    return .op (optNat j "cp") (optNat j "fault") (← parseOp j)
+    let fault : Option Fault := (optNat j "fault").map fun f =>
+      { file := f, seek := (getBool j "fseek").toOption.getD false }
+    return .op (optNat j "cp") fault (← parseOp j)
 
 def geomD (sizes : List Nat) (L : Nat) (i : Nat) : Except HandlesDisk.Err (List Nat × Nat) :=
   match geomArith sizes L i with
@@ -193,7 +195,8 @@ def geomD (sizes : List Nat) (L : Nat) (i : Nat) : Except HandlesDisk.Err (List 
 
 /-- an answer together with, for `verifyPiece`, the piece and the stored digest that were compared
     (the harness decides equality of digests on the real bytes) -/
-def ansJson (c : HandlesDisk.Cfg Nat Dig) (d : Disk Nat) (a f : Option Nat) (x : Handles.Op) (o : Obj) : Json :=
+def ansJson (c : HandlesDisk.Cfg Nat Dig) (d : Disk Nat) (a : Option Nat) (f : Option Fault) (x : Handles.Op)
+    (o : Obj) : Json :=
   let cmp : Json := match x with
     | .verifyPiece i =>
       match Handles.pyIndex c.stored i, (getPiece c d (c.base a) f i o).1 with
